@@ -102,11 +102,11 @@ def _run(ctx):
                 rs = "|".join(sorted(ctx.roots(arg)))
                 d_idx = None
                 for x in common.walk(arg):
-                    if x[0] == "proj" and x[1] == ("param", calc.path, dep_i) and x[2][0] == "i":
+                    if x[0] == "proj" and x[1] == common.param_value(calc, dep_i) and x[2][0] == "i":
                         d_idx = x[2][1]
                 r_idx = None
                 for x in common.walk(arg):
-                    if x[0] == "proj" and x[2] == ("f", "amount") and x[1][0] == "proj" and x[1][1] == ("param", calc.path, pools_i) and x[1][2][0] == "i":
+                    if x[0] == "proj" and x[2] == ("f", "amount") and x[1][0] == "proj" and x[1][1] == common.param_value(calc, pools_i) and x[1][2][0] == "i":
                         r_idx = x[1][2][1]
                 if d_idx is None or r_idx is None or d_idx != r_idx:
                     n1.fail("C05.N1:index-pairing:%s:%s" % (d_idx, r_idx), calc.path, common.span_of_block_term(calc, b),
@@ -114,8 +114,8 @@ def _run(ctx):
                     continue
                 seen_idx.add(d_idx)
                 d, r = T.var("d%d" % d_idx), T.var("r%d" % d_idx)
-                envt = {proj(("param", calc.path, dep_i), ("i", d_idx)): d, ("param", calc.path, sup_i): S,
-                        proj(proj(("param", calc.path, pools_i), ("i", d_idx)), ("f", "amount")): r}
+                envt = {proj(common.param_value(calc, dep_i), ("i", d_idx)): d, common.param_value(calc, sup_i): S,
+                        proj(proj(common.param_value(calc, pools_i), ("i", d_idx)), ("f", "amount")): r}
                 try:
                     m = T.tr(arg, envt)
                 except Unsupported as e:
